@@ -58,7 +58,17 @@ def confirm(o, env):
         o["detail"] = "solver candidate without a native witness (unconfirmed): " + "; ".join(x["what"] for x in o.get("failed", [])[:3])
         return
     log("[%s] solver candidate in %s: %s -> running native witness %s" % (env["pid"], o["id"], "; ".join(x["what"] for x in o["failed"][:2]), name))
-    failed, out = run_witness(env["src"], name)
+    # "a+b": several witnesses cover this failure class; the candidate is confirmed by the first one that fails
+    failed, out = None, ""
+    for one in name.split("+"):
+        f1, o1 = run_witness(env["src"], one)
+        if f1 is True:
+            failed, out, name = True, o1, one
+            break
+        if f1 is False and failed is None:
+            failed, out = False, o1
+        elif f1 is None and failed is None:
+            out = o1
     if failed is True:
         o["status"] = "violated"
         o["finding_key"] = o["id"]
@@ -75,7 +85,11 @@ def replay(meta):
     scratch = common.new_scratch("replayw")
     src = os.path.join(scratch, "mirsrc")
     common.copy_repo(src)
-    failed, out = run_witness(src, meta.get("witness") or "")
+    failed, out = None, ""
+    for one in (meta.get("witness") or "").split("+"):
+        failed, out = run_witness(src, one)
+        if failed is True:
+            break
     log(out[-600:])
     if failed is True:
         log("VIOLATION property=%s replay=%s" % (meta["property"], "witness:" + meta["witness"]))
